@@ -1,6 +1,7 @@
 package whitespace
 
 import (
+	"github.com/ajitpratap0/GoSQLX/pkg/sql/tokenizer"
 	"regexp"
 	"strings"
 
@@ -71,40 +72,61 @@ func NewRedundantWhitespaceRule() *RedundantWhitespaceRule {
 func (r *RedundantWhitespaceRule) Check(ctx *linter.Context) ([]linter.Violation, error) {
 	violations := []linter.Violation{}
 
+	// Only spaces that are plain code count: the inside of string literals,
+	// quoted identifiers and comments (wherever they began) is left alone.
+	// (Reporting reads backslashes in strings as ordinary characters, as the
+	// rule always has; the fix follows the tokenizer and never touches a byte
+	// the tokenizer would put inside a literal.)
+	classes := tokenizer.ClassifyBytesWith(ctx.SQL, false)
+	offset := 0
+
 	for lineNum, line := range ctx.Lines {
-		// Skip checking inside string literals - we'll check the non-string parts
-		parts := extractNonStringParts(line)
+		lc := lineClasses(classes, offset, len(line))
+		offset += len(line) + 1
 
-		for _, part := range parts {
-			// Check for multiple consecutive spaces (not at line start - indentation)
-			matches := multipleSpacesRegex.FindAllStringIndex(part.text, -1)
-			for _, match := range matches {
-				// Calculate actual column in original line
-				column := part.startCol + match[0] + 1 // 1-indexed
+		for _, run := range codeSpaceRuns(line, lc) {
+			column := run[0] + 1 // 1-indexed
 
-				// Skip if this is at the beginning of line (indentation)
-				if part.startCol == 0 && match[0] == 0 {
-					// Check if it's leading whitespace on the line
-					if strings.TrimLeft(line[:column], " \t") == "" {
-						continue // Skip leading indentation
-					}
-				}
-
-				violations = append(violations, linter.Violation{
-					Rule:       r.ID(),
-					RuleName:   r.Name(),
-					Severity:   r.Severity(),
-					Message:    "Multiple consecutive spaces found",
-					Location:   models.Location{Line: lineNum + 1, Column: column},
-					Line:       line,
-					Suggestion: "Reduce to single space",
-					CanAutoFix: true,
-				})
-			}
+			violations = append(violations, linter.Violation{
+				Rule:       r.ID(),
+				RuleName:   r.Name(),
+				Severity:   r.Severity(),
+				Message:    "Multiple consecutive spaces found",
+				Location:   models.Location{Line: lineNum + 1, Column: column},
+				Line:       line,
+				Suggestion: "Reduce to single space",
+				CanAutoFix: true,
+			})
 		}
 	}
 
 	return violations, nil
+}
+
+// codeSpaceRuns returns the [start, end) byte ranges of every run of two or
+// more spaces in line that consists of code bytes only and is not part of the
+// leading indentation.
+func codeSpaceRuns(line string, classes []tokenizer.ByteClass) [][2]int {
+	var runs [][2]int
+	isCodeSpace := func(i int) bool {
+		return line[i] == ' ' && (i >= len(classes) || classes[i] == tokenizer.ByteCode)
+	}
+	indent := len(line) - len(strings.TrimLeft(line, " \t"))
+	for i := indent; i < len(line); {
+		if !isCodeSpace(i) {
+			i++
+			continue
+		}
+		j := i
+		for j < len(line) && isCodeSpace(j) {
+			j++
+		}
+		if j-i >= 2 {
+			runs = append(runs, [2]int{i, j})
+		}
+		i = j
+	}
+	return runs
 }
 
 // linePart represents a non-string portion of a line with its position.
@@ -178,8 +200,24 @@ func extractNonStringParts(line string) []linePart {
 func (r *RedundantWhitespaceRule) Fix(content string, violations []linter.Violation) (string, error) {
 	lines := strings.Split(content, "\n")
 
+	classes := tokenizer.ClassifyBytes(content)
+	offset := 0
 	for i, line := range lines {
-		lines[i] = r.fixLine(line)
+		lc := lineClasses(classes, offset, len(line))
+		offset += len(line) + 1
+
+		runs := codeSpaceRuns(line, lc)
+		if len(runs) == 0 {
+			continue
+		}
+		var sb strings.Builder
+		prev := 0
+		for _, run := range runs {
+			sb.WriteString(line[prev : run[0]+1]) // keep one space of the run
+			prev = run[1]
+		}
+		sb.WriteString(line[prev:])
+		lines[i] = sb.String()
 	}
 
 	return strings.Join(lines, "\n"), nil
